@@ -96,7 +96,7 @@ func runC18(t failer, c c18Case) (paths map[string]bool) {
 	scan := func(when string) {
 		for _, e := range env.logger.Entries() {
 			for tok, what := range tokens {
-				if elsewhere[tok] {
+				if sentElsewhere(elsewhere, tok) {
 					continue
 				}
 				switch e.Kind {
@@ -219,4 +219,15 @@ func TestC18Regress(t *testing.T) {
 		mustUnmarshal(t, s, &c)
 		runC18(t, c)
 	}
+}
+
+// sentElsewhere: the client also sent the token (possibly inside a longer string) somewhere that is not a
+// password position.
+func sentElsewhere(elsewhere map[string]bool, tok string) bool {
+	for e := range elsewhere {
+		if e != "" && strings.Contains(e, tok) {
+			return true
+		}
+	}
+	return false
 }
